@@ -365,6 +365,10 @@ func c08Gen(r *Rng, i int) *Sx {
 				// protocol errors: v5 topic alias 0 (DISCONNECT 0x94); PUBLISH to a topic name with a wildcard; v3/v4 an AUTH
 				// packet (the broker then leaves the TCP connection open until the peer closes it)
 				switch {
+				case s.ver == 5 && s.e == 0 && s.ka == 0 && r.Chance(3, 4):
+					// a DISCONNECT that is itself a protocol error: a non-zero Session Expiry Interval after a CONNECT with 0 /
+					// none (MQTT 5 3.14.2.2.2: not a valid DISCONNECT, so the will is due)
+					add(L(A("send"), I(s.label), L(A("disconnect"), I(Pick(r, []int{0, 0, 4})), K("props", K("sei", I(100))))))
 				case s.ver == 5 && r.Chance(5, 6):
 					add(L(A("send"), I(s.label), L(A("publish"), Bool(false), I(0), Bool(false), S("a"), S("m"), I(0), K("props", K("alias", I(0))))))
 				case s.ver != 5 && r.Chance(4, 5):
